@@ -225,6 +225,52 @@ fn main() {{
 '''
 
 
+def gen_namecap_program(a):
+    """A second well-typed use of the arm in which the user's own types are called `Ordering` (std::cmp) and
+    `AtomicUsize`: names the macro's expansion must not capture."""
+    kind, unit, opts = a["kind"], a["unit"], a["opts"]
+    raw = kind in ("C", "system", "unsafe")
+    outty = "*mut i32" if raw else "&mut i32"
+    kw = {"safe": "fn", "unsafe": "unsafe fn", "C": 'unsafe extern "C" fn', "system": 'unsafe extern "system" fn'}[kind]
+    fnty_macro = {"safe": "fn", "unsafe": "unsafe{} fn", "C": 'unsafe{} extern "C" fn', "system": 'unsafe{} extern "system" fn'}[kind]
+    ret = "()" if unit else "i32"
+    target_ret = "" if unit else " -> i32"
+    parts = [f"func_type: {kw}(a: Ordering, n: AtomicUsize, out: {outty}) -> {ret}"]
+    for o in opts:
+        parts.append({"when": "when: a == Ordering::Less && n.0 == 3", "assign": "assign: { *out += 10 }", "returns": "returns: *out + 2", "times": "times: 1"}[o])
+    fake = "injectorpp::fake!(" + ", ".join(parts) + ")"
+    body = ("unsafe { *out += 1000; }" if raw else "*out += 1000;") + ("" if unit else " 7000")
+    call = "target(Ordering::Less, AtomicUsize(3), &mut out)" if not raw else "unsafe { target(Ordering::Less, AtomicUsize(3), &mut out as *mut i32) }"
+    return f'''// generated by /verif/lib/e4.py: name-capture probe for the fake! arm at macros.rs:{a["line"]} ({arm_name(a)})
+use injectorpp::interface::injector::*;
+use std::cmp::Ordering;
+use std::panic::{{catch_unwind, AssertUnwindSafe}};
+#[derive(Clone, Copy, PartialEq)]
+#[repr(C)]
+pub struct AtomicUsize(pub i32);
+
+#[inline(never)]
+{kw} target(a: Ordering, n: AtomicUsize, out: {outty}){target_ret} {{
+    let _ = (a, n);
+    {body}
+}}
+
+fn main() {{
+    let r = catch_unwind(AssertUnwindSafe(|| {{
+        let mut injector = InjectorPP::new();
+        injector.when_called(injectorpp::func!({fnty_macro} (target)(Ordering, AtomicUsize, {outty}){target_ret})).will_execute({fake});
+        let mut out: i32 = 5;
+        let v = {call};
+        println!("ret={{:?}} out={{out}}", v);
+    }}));
+    match r {{
+        Ok(()) => println!("exit: ok"),
+        Err(p) => println!("exit: panic {{}}", p.downcast_ref::<String>().cloned().or_else(|| p.downcast_ref::<&str>().map(|s| s.to_string())).unwrap_or_default()),
+    }}
+}}
+'''
+
+
 def arm_model(a, n, scripts):
     """Reference model for one or more lifetimes ('/'-separated scripts), every one judged like a first one."""
     lines = []
@@ -364,6 +410,7 @@ def c08(tier, mi):
     for a in arms:
         seen.setdefault(arm_name(a), a)
     progs = {("arm_" + name): gen_arm_program(a) for name, a in seen.items()}
+    progs.update({("cap_" + name): gen_namecap_program(a) for name, a in seen.items()})
     built = build_many(progs, rlib, deps)
     viols = []
     runs = []
@@ -383,6 +430,24 @@ def c08(tier, mi):
                 m = "m" * n
                 for sc in (f"{m}/{m}", f"{m}m/{m}", f"{m}/{m}/{m}", f"{'m' * max(0, n - 1)}/{m}"):
                     runs.append((a, n, sc, [exe, str(n), sc]))
+    # name-capture probes: must compile, install, run once and leave scope quietly
+    cap_cmds = []
+    for name, a in seen.items():
+        ok, err, exe = built["cap_" + name]
+        if not ok:
+            first = next((l for l in err.splitlines() if l.startswith("error")), err[:200])
+            viols.append({"key": f"arm:{name}:user-names-captured:does-not-compile", "what": f"the fake! arm at macros.rs:{a['line']} ({name}) does not compile when the user's own types are called `Ordering` / `AtomicUsize`: {first}",
+                          "engine": "e4", "args": ["c08"], "case": {"arm": name, "line": a["line"], "rustc": err[-1200:]}})
+        else:
+            cap_cmds.append((name, a, [exe]))
+    for (name, a, _), (rc, so, se) in zip(cap_cmds, run_many([c[2] for c in cap_cmds])):
+        want_ret = "()" if a["unit"] else str((15 if "assign" in a["opts"] else 5) + 2)
+        want_out = 15 if "assign" in a["opts"] else 5
+        want = [f"ret={want_ret} out={want_out}", "exit: ok"]
+        got = [l for l in so.splitlines() if l.strip()]
+        if got != want:
+            viols.append({"key": f"arm:{name}:user-names-captured", "what": f"arm {name} (macros.rs:{a['line']}) used with user types named `Ordering` / `AtomicUsize`: got {got} (status {rc}), expected {want}",
+                          "engine": "e4", "args": ["c08"], "case": {"arm": name, "line": a["line"], "stdout": so[-400:], "status": rc}})
     results = run_many([r[3] for r in runs])
     outcomes = set()
     for (a, n, sc, _), (rc, so, se) in zip(runs, results):
@@ -590,6 +655,107 @@ def gen_c09_macro_program(arms=()):
     return "\n".join(out) + "\n", items, kinds, shapes
 
 
+C09_PREFIX_OPS = ["typed-install(Ta)", "typed-install(Tb)", "unchecked-install", "refused-typed-pair", "typed-when_called-left-incomplete", "typed-will_execute(fake!)", "will_return_boolean"]
+C09_PROBES = [("typed Ta target x typed Ta replacement", "OK"), ("typed Ta target x typed Tb replacement", "PANIC MISMATCH"),
+              ("typed Ta target x unchecked replacement", "PANIC MISMATCH"), ("unchecked target x typed Ta replacement through will_execute_raw", "PANIC MISMATCH"),
+              ("unchecked target x unchecked replacement", "OK"), ("typed Tb target x typed Ta replacement", "PANIC MISMATCH"),
+              ("typed Ta target x fake!(func_type: Tb)", "PANIC MISMATCH"), ("typed Tb target x typed Tb replacement", "OK")]
+C09_CONTEXTS = ["plain", "while-unwinding (inside a fixture's Drop)"]
+
+
+def c09_prefixes():
+    n = len(C09_PREFIX_OPS)
+    return [()] + [(a,) for a in range(n)] + [(a, b) for a in range(n) for b in range(n)]
+
+
+def gen_c09_context_program():
+    """form S: the probe pair is made on an injector that already went through a prefix of other
+    operations (every prefix of length <= 2 over 7 operations), in a plain context and while the
+    thread is unwinding (inside a Drop of a fixture).  The expected verdict of the probe depends on
+    the probe alone."""
+    out = ['// generated by /verif/lib/e4.py (C09: probe pairs in injector contexts)', '#![allow(unused)]',
+           'use injectorpp::interface::injector::*;', 'use std::panic::{catch_unwind, AssertUnwindSafe};',
+           'type Ta = fn(i32) -> i32; type Tb = fn(i64) -> i64; type Tc = fn(i32) -> bool;',
+           'fn class(p: &(dyn std::any::Any + Send)) -> &\'static str { let m = p.downcast_ref::<String>().cloned().or_else(|| p.downcast_ref::<&str>().map(|s| s.to_string())).unwrap_or_default(); if m.contains("Signature mismatch") { "MISMATCH" } else if m.contains("Pointer must not be null") { "NULL" } else { "OTHER" } }',
+           'fn bytes(p: *const ()) -> [u8; 16] { let mut b = [0u8; 16]; unsafe { std::ptr::copy_nonoverlapping(p as *const u8, b.as_mut_ptr(), 16) }; b }']
+    k = 9000
+    for nm in ["pa0", "pa1", "ra", "pw0", "pw1", "pf0", "pf1", "pr0", "pr1", "qa", "fa", "pu0", "pu1", "ru", "qu", "fu"]:
+        k += 1
+        out.append(f"#[inline(never)] fn {nm}(a: i32) -> i32 {{ std::hint::black_box({k}); a }}")
+    for nm in ["pb0", "pb1", "rb", "qb", "fb"]:
+        k += 1
+        out.append(f"#[inline(never)] fn {nm}(a: i64) -> i64 {{ std::hint::black_box({k}); a }}")
+    for nm in ["pt0", "pt1"]:
+        k += 1
+        out.append(f"#[inline(never)] fn {nm}(a: i32) -> bool {{ std::hint::black_box({k}); a == 0 }}")
+    out.append("""
+fn pre(inj: &mut InjectorPP, op: usize, slot: usize) {
+    match (op, slot) {
+        (0, 0) => inj.when_called(injectorpp::func!(pa0, Ta)).will_execute_raw(injectorpp::func!(ra, Ta)),
+        (0, _) => inj.when_called(injectorpp::func!(pa1, Ta)).will_execute_raw(injectorpp::func!(ra, Ta)),
+        (1, 0) => inj.when_called(injectorpp::func!(pb0, Tb)).will_execute_raw(injectorpp::func!(rb, Tb)),
+        (1, _) => inj.when_called(injectorpp::func!(pb1, Tb)).will_execute_raw(injectorpp::func!(rb, Tb)),
+        (2, 0) => unsafe { inj.when_called_unchecked(injectorpp::func_unchecked!(pu0)).will_execute_raw_unchecked(injectorpp::func_unchecked!(ru)) },
+        (2, _) => unsafe { inj.when_called_unchecked(injectorpp::func_unchecked!(pu1)).will_execute_raw_unchecked(injectorpp::func_unchecked!(ru)) },
+        (3, 0) => { let _ = catch_unwind(AssertUnwindSafe(|| inj.when_called(injectorpp::func!(pr0, Ta)).will_execute_raw(injectorpp::func!(rb, Tb)))); }
+        (3, _) => { let _ = catch_unwind(AssertUnwindSafe(|| inj.when_called(injectorpp::func!(pr1, Ta)).will_execute_raw(injectorpp::func!(rb, Tb)))); }
+        (4, 0) => { let _b = inj.when_called(injectorpp::func!(pw0, Ta)); }
+        (4, _) => { let _b = inj.when_called(injectorpp::func!(pw1, Ta)); }
+        (5, 0) => inj.when_called(injectorpp::func!(pf0, Ta)).will_execute(injectorpp::fake!(func_type: fn(a: i32) -> i32, returns: 5)),
+        (5, _) => inj.when_called(injectorpp::func!(pf1, Ta)).will_execute(injectorpp::fake!(func_type: fn(a: i32) -> i32, returns: 5)),
+        (6, 0) => inj.when_called(injectorpp::func!(pt0, Tc)).will_return_boolean(true),
+        (_, _) => inj.when_called(injectorpp::func!(pt1, Tc)).will_return_boolean(true),
+    }
+}
+fn probe_target(q: usize) -> *const () {
+    match q { 3 | 4 => qu as Ta as *const (), 5 | 7 => qb as Tb as *const (), _ => qa as Ta as *const () }
+}
+fn probe(inj: &mut InjectorPP, q: usize) {
+    match q {
+        0 => inj.when_called(injectorpp::func!(qa, Ta)).will_execute_raw(injectorpp::func!(fa, Ta)),
+        1 => inj.when_called(injectorpp::func!(qa, Ta)).will_execute_raw(injectorpp::func!(fb, Tb)),
+        2 => inj.when_called(injectorpp::func!(qa, Ta)).will_execute_raw(unsafe { injectorpp::func_unchecked!(fu) }),
+        3 => unsafe { inj.when_called_unchecked(injectorpp::func_unchecked!(qu)) }.will_execute_raw(injectorpp::func!(fa, Ta)),
+        4 => unsafe { inj.when_called_unchecked(injectorpp::func_unchecked!(qu)).will_execute_raw_unchecked(injectorpp::func_unchecked!(fu)) },
+        5 => inj.when_called(injectorpp::func!(qb, Tb)).will_execute_raw(injectorpp::func!(fa, Ta)),
+        6 => inj.when_called(injectorpp::func!(qa, Ta)).will_execute(injectorpp::fake!(func_type: fn(a: i64) -> i64, returns: 5)),
+        _ => inj.when_called(injectorpp::func!(qb, Tb)).will_execute_raw(injectorpp::func!(fb, Tb)),
+    }
+}
+struct Fx<F: FnOnce()>(Option<F>);
+impl<F: FnOnce()> Drop for Fx<F> { fn drop(&mut self) { (self.0.take().unwrap())() } }
+fn in_ctx(ctx: usize, f: impl FnOnce()) {
+    if ctx == 0 { f() } else {
+        let _ = catch_unwind(AssertUnwindSafe(|| { let _fx = Fx(Some(f)); panic!("the test body fails; fixtures are dropped while unwinding"); }));
+    }
+}
+fn one(ctx: usize, pi: usize, prefix: &[usize], q: usize) {
+    let tp = probe_target(q);
+    let before = bytes(tp);
+    in_ctx(ctx, || {
+        let mut inj = InjectorPP::new();
+        let mut used = [0usize; 7];
+        for &op in prefix { pre(&mut inj, op, used[op]); used[op] += 1; }
+        let mut during = None;
+        let r = catch_unwind(AssertUnwindSafe(|| { probe(&mut inj, q); during = Some(bytes(tp)); }));
+        let v = match &r { Ok(()) => "OK".to_string(), Err(p) => format!("PANIC {}", class(p.as_ref())) };
+        let refused_but_modified = r.is_err() && bytes(tp) != before;
+        drop(inj);
+        println!("S{ctx} {pi} {q} {v} modified_during={} restored={}", if refused_but_modified { 7 } else { during.map(|d| (d != before) as u8).unwrap_or(9) }, (bytes(tp) == before) as u8);
+    });
+}
+fn main() {
+    std::panic::set_hook(Box::new(|_| {}));
+    let n = 7usize;
+    let mut prefixes: Vec<Vec<usize>> = vec![vec![]];
+    for a in 0..n { prefixes.push(vec![a]); }
+    for a in 0..n { for b in 0..n { prefixes.push(vec![a, b]); } }
+    for ctx in 0..2 { for (pi, p) in prefixes.iter().enumerate() { for q in 0..8 { one(ctx, pi, p, q); } } }
+}
+""")
+    return "\n".join(out) + "\n"
+
+
 def c09(tier, mi):
     rlib, deps = real_rlib()
     src1, F = gen_c09_program()
@@ -599,13 +765,14 @@ def c09(tier, mi):
         seen_arms.setdefault(arm_name(a), a)
     arms = list(seen_arms.values())
     src2, items, kinds, shapes = gen_c09_macro_program(arms)
-    built = build_many({"c09_pairs": src1, "c09_macros": src2}, rlib, deps)
+    built = build_many({"c09_pairs": src1, "c09_macros": src2, "c09_context": gen_c09_context_program()}, rlib, deps)
+    prefixes = c09_prefixes()
     for name, (ok, err, exe) in built.items():
         if not ok:
             raise MachineryError(f"generated program {name} does not compile against this tree (a well-typed use of the public macros is rejected?): " + err[-1500:])
     viols = []
     lines = []
-    for name in ("c09_pairs", "c09_macros"):
+    for name in ("c09_pairs", "c09_macros", "c09_context"):
         rc, so, se = run_many([[built[name][2]]], timeout=120)[0]
         if rc != 0:
             viols.append({"key": f"{name}:process-died", "what": f"the pair program died with status {rc}: {se[-300:]}", "engine": "e4", "args": ["c09"], "case": {"program": name, "stdout_tail": so[-400:]}})
@@ -654,6 +821,10 @@ def c09(tier, mi):
         elif form in ("Y1", "Y2"):
             expect = "PANIC MISMATCH"
             desc = f"checked async call paired with an unchecked async macro ({form})"
+        elif form in ("S0", "S1"):
+            expect = C09_PROBES[j][1]
+            pre = " then ".join(C09_PREFIX_OPS[o] for o in prefixes[i]) or "a fresh injector"
+            desc = f"{C09_PROBES[j][0]}, on an injector after [{pre}], context {C09_CONTEXTS[int(form[1])]}"
         else:
             continue
         judged += 1
@@ -662,10 +833,10 @@ def c09(tier, mi):
             kind = "false-accept" if verdict == "OK" else ("false-refusal" if expect == "OK" else "wrong-message")
             key = f"{form}:{kind}"
             what = f"{desc}: got {verdict}, expected {expect}"
-        elif verdict.startswith("PANIC") and restored != "1":
+        elif verdict.startswith("PANIC") and (restored != "1" or mod == "7"):
             key = f"{form}:refused-but-modified"
             what = f"{desc}: refused, but the target's bytes were modified"
-        elif verdict == "OK" and form in ("A", "B", "M", "R", "E3") and (mod != "1" or restored != "1"):
+        elif verdict == "OK" and form in ("A", "B", "M", "R", "E3", "S0", "S1") and (mod != "1" or restored != "1"):
             key = f"{form}:accepted-but-not-installed-or-restored"
             what = f"{desc}: accepted, modified_during={mod} restored={restored}"
         if key:
@@ -676,7 +847,7 @@ def c09(tier, mi):
         "states": judged, "transitions": judged, "traces_validated_against_impl": judged,
         "samples": [l for l in lines[:: max(1, len(lines) // 4)]][:4],
         "pairs_judged": judged, "type_family": [f["ty"] for f in F], "distinct_outcomes": len(outcomes),
-        "bound": {"family": f"{len(F)} fn-pointer types (all ordered pairs through func! and closure!), 16 fake!/func! spelling configurations (all ordered pairs), 5 async output types (all ordered pairs), checked x unchecked mixes, null pointers"},
+        "bound": {"family": f"{len(F)} fn-pointer types (all ordered pairs through func! and closure!), 16 fake!/func! spelling configurations (all ordered pairs), 5 async output types (all ordered pairs), checked x unchecked mixes, null pointers; form S: 8 probe pairs x every prefix of <= 2 earlier operations (7 kinds) on the same injector x (plain | while unwinding)"},
         "exhaustive": True,
         "explanation": "states = (form, target type, replacement type) configurations executed against the unmodified crate in a generated program; accept/refuse, message class, and the target's bytes after a refusal are judged",
     }
